@@ -109,11 +109,49 @@ func (fr *Frame) execCall(st *State, c *ssa.CallCommon, res ssa.Value, pos token
 		} else {
 			v.havocked = append(v.havocked, f.String())
 		}
+		allocPre := v.alloc(st)
 		v.havocKeys(st, ms)
-		fr.freshResult(st, c, res)
+		out := fr.freshResult(st, c, res)
+		if res != nil && returnsNewObject(f) {
+			// every return of the callee hands back an object it allocated itself: the result is
+			// distinct from everything that existed before the call
+			v.smt.assert("(>= " + out.T + " " + allocPre + ")")
+		}
 		return
 	}
 	fr.havocCall(st, c, res, "dynamic call "+c.Value.Name())
+}
+
+var returnsNewMemo = map[*ssa.Function]bool{}
+
+// returnsNewObject: single pointer result, and every return statement returns a heap allocation
+// made in the function body itself (constructor shape: return &T{…}).
+func returnsNewObject(f *ssa.Function) bool {
+	if r, ok := returnsNewMemo[f]; ok {
+		return r
+	}
+	ok := f.Blocks != nil && f.Signature.Results().Len() == 1
+	if ok {
+		_, isPtr := f.Signature.Results().At(0).Type().Underlying().(*types.Pointer)
+		ok = isPtr
+	}
+	nret := 0
+	if ok {
+		for _, b := range f.Blocks {
+			for _, in := range b.Instrs {
+				if ret, isRet := in.(*ssa.Return); isRet {
+					nret++
+					al, isAlloc := ret.Results[0].(*ssa.Alloc)
+					if !isAlloc || !al.Heap {
+						ok = false
+					}
+				}
+			}
+		}
+	}
+	ok = ok && nret > 0
+	returnsNewMemo[f] = ok
+	return ok
 }
 
 func (fr *Frame) havocCall(st *State, c *ssa.CallCommon, res ssa.Value, why string) {
@@ -757,6 +795,29 @@ func (fr *Frame) checkGuarded(st *State, p Val, pos token.Pos, what string) {
 	v.siteCount["guard"]++
 	v.addObl(st, "monitor", fmt.Sprintf("guarded.%s#%d", strings.TrimPrefix(p.Loc.key, "F!"), v.siteCount["guard"]),
 		sel(v.heap(st, hk), recv), what+" of guarded field "+p.Loc.key+" with the mutex held", nil, pos)
+}
+
+// checkFrozen: a wire message that was handed to TransmitMessage belongs to the connection's
+// outgoing queue (the queue holds the pointer, the sender goroutine serialises it later); a
+// direct field write to such an object changes what is sent. Generated only in functions that
+// transmit messages, for stores to fields of wire.Msg* objects.
+func (fr *Frame) checkFrozen(st *State, x *ssa.Store) {
+	v := fr.v
+	fa, ok := x.Addr.(*ssa.FieldAddr)
+	if !ok {
+		return
+	}
+	nt, sT := namedStruct(deref(fa.X.Type()))
+	if nt == nil || sT == nil || nt.Obj().Pkg() == nil || !strings.HasSuffix(nt.Obj().Pkg().Path(), "/wire") || !strings.HasPrefix(nt.Obj().Name(), "Msg") {
+		return
+	}
+	if _, ok := v.eng.modSetOf(v.top.fn).Keys["GH!transmitted"]; !ok {
+		return
+	}
+	k := v.ghostKey("transmitted", "(Array Int Bool)")
+	v.siteCount["frozen"]++
+	v.addObl(st, "monitor", fmt.Sprintf("frozen.%s.%s#%d", nt.Obj().Name(), sT.Field(fa.Field).Name(), v.siteCount["frozen"]),
+		"(not "+sel(v.heap(st, k), fr.term(st, fa.X))+")", "write to a field of a message that was already handed to TransmitMessage", nil, x.Pos())
 }
 
 func (fr *Frame) checkGuardedMap(st *State, m ssa.Value, pos token.Pos) {
